@@ -57,6 +57,7 @@ type FakeSup struct {
 	ExecLatency  time.Duration     // Exec returns this long after the process started
 	FullEnv      bool              // record complete environments in Exec events
 	ExitLag      time.Duration     // the termination event is sent this long after the process died
+	ExitLagGens  int               // > 0: ... only for processes of the first ExitLagGens generations
 	OnTermByPath bool              // C19 self-check: behaviour is taken from the shell script (ignoreterm / forkignore ignore TERM)
 	execWaiters  []chan struct{}
 	deliverDelay time.Duration
@@ -167,6 +168,9 @@ func (s *FakeSup) dieLocked(p *Proc, exit *int, signo *int, cause string) bool {
 	// the death is on record before the process's connections break
 	p.cancel()
 	lag := s.ExitLag
+	if s.ExitLagGens > 0 && p.Gen > s.ExitLagGens {
+		lag = 0
+	}
 	go func() {
 		if lag > 0 {
 			time.Sleep(lag)
